@@ -26,7 +26,13 @@ fn force_final_flush(c: &mut SeqCase, raw: &RawCase, max_bs: u8, _e: &Exclusions
 /// writes (holes that touch refcount-slice boundaries), then long writes again, with flushes in
 /// between. All offsets are cluster aligned (cluster >= block size), lengths clamped to the
 /// virtual size.
-fn frag_history(c: &mut SeqCase, raw: &RawCase, max_bs: u8, e: &Exclusions) {
+pub fn frag_history(c: &mut SeqCase, raw: &RawCase, max_bs: u8, e: &Exclusions) {
+    frag_ops(c, raw);
+    force_final_flush(c, raw, max_bs, e);
+}
+
+/// the operation part of `frag_history` (no forced final flush)
+pub fn frag_ops(c: &mut SeqCase, raw: &RawCase) {
     use crate::gen::{pick1, weighted1};
     use crate::pat::Pat;
     let cs = 1u64 << c.layers[0].cluster_bits();
@@ -91,7 +97,27 @@ fn frag_history(c: &mut SeqCase, raw: &RawCase, max_bs: u8, e: &Exclusions) {
         }
         c.ops = ops;
     }
-    force_final_flush(c, raw, max_bs, e);
+}
+
+/// geometry of the fragmentation domains (C01, C03, C08)
+pub fn frag_profile() -> Profile {
+    Profile {
+        max_ops: 40,
+        op_weights: [50, 3, 27, 12, 1, 3, 4],
+        cb_weights: [75, 25, 0, 0, 0, 0],
+        max_cluster_bits: 10,
+        order_weights: Some([0, 1, 1, 2, 10, 26, 60]),
+        max_clusters: 900,
+        vsize_weights: [0, 5, 95, 0],
+        max_write_clusters: 300,
+        max_discard_clusters: 40,
+        depth_weights: [92, 8, 0, 0],
+        formatted_pct: 60,
+        kind_weights: [80, 14, 2, 2, 2],
+        small_rb_slices_pct: 85,
+        sched_pct: 10,
+        ..Profile::default()
+    }
 }
 
 // ------------------------------------------------------------------------------------ C02
@@ -203,23 +229,7 @@ impl Prop for C03 {
             name: "frag",
             quick: 12_000,
             thorough: 400_000,
-            profile: || Profile {
-                max_ops: 40,
-                op_weights: [50, 3, 27, 12, 1, 3, 4],
-                cb_weights: [75, 25, 0, 0, 0, 0],
-                max_cluster_bits: 10,
-                order_weights: Some([0, 1, 1, 2, 10, 26, 60]),
-                max_clusters: 900,
-                vsize_weights: [0, 5, 95, 0],
-                max_write_clusters: 300,
-                max_discard_clusters: 40,
-                depth_weights: [92, 8, 0, 0],
-                formatted_pct: 60,
-                kind_weights: [80, 14, 2, 2, 2],
-                small_rb_slices_pct: 85,
-                sched_pct: 10,
-                ..Profile::default()
-            },
+            profile: frag_profile,
             cfg: || SeqCfg {
                 sweep: false,
                 check_on_flush: true,
@@ -474,9 +484,14 @@ impl Prop for C16 {
             nontrivial: |r, _| r.stats.meta_requests_bs_gt_512 > 0 || r.stats.header_writes > 0,
             case_tags: no_tags,
             tweak: |c, raw, _, _| {
-                // bias towards larger block sizes: this property is about bs > 512
-                let _ = raw;
-                let _ = c;
+                // a backend without hole punching (every punch request is refused): the library
+                // falls back to writing zeros, and those writes have to be aligned as well
+                if raw.head.last().copied().unwrap_or(0) % 100 < 35 {
+                    c.faults = Some(crate::sim::FaultPlan {
+                        punch_unsupported: true,
+                        ..Default::default()
+                    });
+                }
             },
             extra_classes: no_classes,
             max_sched: 200,
